@@ -251,3 +251,31 @@ def run_oracle(reqs, nproc=14, grid=None):
         for j, r in enumerate(results[i] or []):
             out[i + j * nproc] = r
     return out
+
+
+def lazy_attribute(items, attribution, usable=True):
+    """Attribute deviations to recorded findings with counterfactual runs of the bit-exact model, one switch setting at a time and only
+    for the items still unexplained (the settings are ordered so that the common findings come first).
+    items: dicts with "runs" (tuple of PairRun), "defect" (function: list of blocks, one per run, as float lists -> float), "tol".
+    Sets item["fid"] (finding id(s) joined by + or None) and item["table"] (setting -> defect).  Nothing is attributed when `usable` is
+    false (a theorem or the correspondence is broken in this run: the model then says nothing about the code)."""
+    for it in items:
+        it["fid"], it["table"] = None, {}
+    if not usable:
+        return items
+    for fid, sw in attribution:
+        todo = [it for it in items if it["fid"] is None]
+        if not todo:
+            break
+        flat = [r for it in todo for r in it["runs"]]
+        flat.sort(key=lambda r: (r.case["maxLB"], r.case["maxLU"]))
+        run_model(flat, (sw,))
+        for it in todo:
+            blocks = [r.model.get(sw) for r in it["runs"]]
+            if any(b is None for b in blocks):
+                continue
+            d = it["defect"]([[unhex(x) for x in b] for b in blocks])
+            it["table"][sw] = d
+            if d <= it["tol"]:
+                it["fid"] = fid
+    return items
